@@ -21,9 +21,10 @@ static cm_model_t M; static int logpos; static long ncmds, naccepted;
 static struct { uint32_t fb; int speed; int fwd; } TS[CM_MAXT];     /* reference optimistic train state; fwd = -1: unknown */
 static int quiet_after_start; static int silent_hook(int node, const rc_msg_t *m) { (void) node; (void) m; return quiet_after_start; }
 
+static int with_function_train;
 static void begin(int presence_mask, int lose_lc1_later) {
 	hx_child_begin(NULL, 0, 0, NULL, 0, 1000000ull * 5000000ull);
-	cm_std(&M);
+	cm_std(&M); if (with_function_train) cm_add_function_train(&M);
 	for (int i = 1; i <= 3; i++) M.b[i].present = (presence_mask >> (i - 1)) & 1;
 	quiet_after_start = 0; cm_install(&M); SB.on_msg = silent_hook;
 	if (hx_start_normal(0)) res_infra("normal start failed");
@@ -185,6 +186,28 @@ static size_t sweep_gen(long idx, uint8_t *payload, char *human, size_t hn) {
 	snprintf(human, hn, "present(oc1,lc1,booster2)=%d%d%d%s part=%d", VAR[v] & 1, (VAR[v] >> 1) & 1, (VAR[v] >> 2) & 1, VAR[v] & 8 ? " lc1-lost-after-start" : "", part);
 	return 3;
 }
+/* ---------------------------------------------------------------- function groups: every ordered pair of function slots */
+static void groups_child(const void *job, size_t n) {
+	vs_dev_t devs[VS_MAXDEV]; int nd; size_t pl; const uint8_t *p = job_parse(job, n, devs, &nd, &pl);
+	int pi = p[0]; const char *to = p[1] ? "booster2" : "master";
+	with_function_train = 1; begin(7, 0);
+	const cm_train_t *t = cm_train(&M, "train3"); if (!t || pi >= t->nper) res_infra("no function train");
+	const char *P = t->per[pi].id;
+	for (int qi = 0; qi < t->nper; qi++) { if (qi == pi) continue; const char *Q = t->per[qi].id;
+		cmd_function("train3", P, 1, to); cmd_function("train3", Q, 1, to); cmd_function("train3", P, 0, to); cmd_function("train3", Q, 0, to);
+		if (res_nviol() > 3) goto out; }
+	for (int qi = 0; qi < t->nper; qi++) cmd_function("train3", t->per[qi].id, 1, to);
+	cmd_function("train3", P, 0, to); cmd_function("train3", P, 1, to); cmd_speed("train3", 20, to); cmd_function("train3", P, 0, to);
+	for (int qi = t->nper - 1; qi >= 0 && res_nviol() <= 3; qi--) cmd_function("train3", t->per[qi].id, 0, to);
+out:
+	hx_emit_ledger_violations("C09");
+	res_printf("O %lx %lx\nC commands %ld\nC commands_accepted_by_reference %ld\n", (unsigned long) ncmds + p[0] * 1000ul, (unsigned long) naccepted + p[1] * 1000ul, ncmds, naccepted);
+	res_finish();
+}
+static size_t groups_gen(long idx, uint8_t *payload, char *human, size_t hn) {
+	payload[0] = (uint8_t) (idx / 2); payload[1] = (uint8_t) (idx % 2);
+	snprintf(human, hn, "function slot #%d of train3 against every other slot, via %s", (int) (idx / 2), idx % 2 ? "booster2" : "master"); return 2;
+}
 /* ---------------------------------------------------------------- histories */
 #define H_N 12
 static const char *HNAME[H_N] = {"head_light=1", "head_light=0", "cabin_light=1", "cabin_light=0", "horn=1", "horn=0", "speed +10", "speed 0", "speed -10", "emergency stop", "head_light=1 via booster2", "speed 0 via booster2"};
@@ -209,18 +232,20 @@ static void hist_child(const void *job, size_t n) {
 	res_printf("S %llx %llx\n", (unsigned long long) h.a, (unsigned long long) h.b);
 	res_finish();
 }
-void c09_register(void) { harness_register("c09.sweep", sweep_child); harness_register("c09.hist", hist_child); }
+void c09_register(void) { harness_register("c09.sweep", sweep_child); harness_register("c09.hist", hist_child); harness_register("c09.groups", groups_child); }
 int c09_run(const char *tier) {
 	int thorough = !strcmp(tier, "thorough");
 	ex_spec_t e = { .harness = "c09.sweep", .ncases = 5 * 25, .gen = sweep_gen, .label = "c09.sweep" };
 	ex_map(&e);
+	ex_spec_t g = { .harness = "c09.groups", .ncases = 29 * 2, .gen = groups_gen, .label = "c09.groups" };
+	ex_map(&g);
 	uint8_t param[1] = {0}; const char *d = getenv("VERIF_DEPTH");
 	e2_spec_t s = { .harness = "c09.hist", .param = param, .nparam = 1, .nevents = H_N, .max_depth = d ? atoi(d) : (thorough ? 8 : 5), .label = "c09.hist", .evname = hevname };
 	e2_explore(&s);
-	rep_count("states", s.states + e.distinct_outcomes); rep_count("transitions", s.transitions + rep_get("commands")); rep_count("executions", s.execs + e.done);
-	rep_flag("exhaustive", s.exhaustive && e.exhaustive);
+	rep_count("states", s.states + e.distinct_outcomes); rep_count("transitions", s.transitions + rep_get("commands")); rep_count("executions", s.execs + e.done + g.done);
+	rep_flag("exhaustive", s.exhaustive && e.exhaustive && g.exhaustive);
 	char sb[200]; size_t o = 0; for (int i = 0; i <= s.depth_completed + 1 && i < 16; i++) o += (size_t) snprintf(sb + o, sizeof sb - o, "%ld ", s.states_by_depth[i]);
-	rep_note("catalogue: %ld commands in %ld children (5 presence variants), %ld of them valid per the configuration model; histories: %d commands, depth %d, new states by depth: %s",
-	         rep_get("commands"), e.done, rep_get("commands_accepted_by_reference"), H_N, s.depth_completed, sb);
+	rep_note("function groups: %ld children = 29 function slots (bits 0-4, 8-31 of train3) x 2 track outputs, each slot against every other slot and against the full group; catalogue: %ld commands in %ld children (5 presence variants), %ld of them valid per the configuration model; histories: %d commands, depth %d, new states by depth: %s",
+	         g.done, rep_get("commands"), e.done, rep_get("commands_accepted_by_reference"), H_N, s.depth_completed, sb);
 	return 0;
 }
